@@ -33,3 +33,4 @@ def run(ctx):
             c07.rule_move_file(ctx, p, cfg, "R6d")   # an archive is replaced whole: rename, else copy (truncating) then remove
             c07.rule_archive_writes_surface(ctx, p, cfg, "R6e")   # .. and written whole: no bare write, no buffered tail lost in a drop
             c07.rule_roll_moves_file(ctx, p, cfg, "R6f")   # a roll reported as done has taken the file away
+            c07.rule_staging_name(ctx, p, cfg, "R6g")   # .. to a name nothing staged earlier still holds
